@@ -1,4 +1,193 @@
+/-
+  C05 — AUROC, AUPRC, precision-recall curves and recall at fixed precision equal
+  their definitions, including ties, weights and the degenerate conventions.
+  ONLY property theorems and non-vacuity examples live here; helper lemmas are in
+  TE/Lemmas/Curve*.lean.  Models: TE/Model/Curve.lean (the code's sort / diff-mask /
+  cumsum / masked-scatter / trapz pipeline); specs: TE/Spec/Curve.lean (double
+  sums and counting, no sorting).
+-/
 import TE.Model.Curve
 import TE.Spec.Curve
+import TE.Lemmas.Curve
+import TE.Lemmas.CurveAuroc
+import TE.Lemmas.CurvePR
 namespace TE.C05
+open TE TE.Curve TE.Spec.Curve TE.CurveL
+
+/-! ## (a) AUROC: the trapezoid over the masked, right-aligned cumulative sums is
+    the weighted pairwise probability, ties counting one half -/
+
+/-- **binary AUROC = its definition**, for every score vector (any tie pattern,
+    constant scores), every 0/1 label vector (incl. all-positive / all-negative)
+    and *arbitrary* rational weights, `n ≥ 1`:
+    `Σ_{i pos, j neg} wᵢwⱼ([sᵢ>sⱼ] + ½[sᵢ=sⱼ]) / (W⁺·W⁻)`, and `1/2` when `W⁺·W⁻ = 0`. -/
+theorem auroc_model_eq_spec (xs ts ws : List Q)
+    (hne : samples xs ts ws ≠ [])
+    (hlab : ∀ x ∈ samples xs ts ws, x.t = 0 ∨ x.t = 1) :
+    binaryAuroc xs ts ws = .ok (auroc (samples xs ts ws)) := by
+  unfold binaryAuroc
+  rw [binPts_eq, aurocCore_eq _ (by simpa using hne) (toPt_ab _ hlab),
+    sum_a_eq_wPos _ hlab, sum_b_eq_wNeg _ hlab, ptNum_eq_aurocNum _ hlab]
+  rfl
+
+example : binaryAuroc [1/2, 1/2, 1/4, 3/4] [1, 0, 1, 0] [1, 2, 1, 2] = .ok (1/8) := by
+  rw [auroc_model_eq_spec _ _ _ (by decide +kernel) (by decide +kernel)]; exact congrArg _ (by decide +kernel)
+
+/-- the same for every task row (`num_tasks > 1`). -/
+theorem auroc_tasks_model_eq_spec (rows : List (List Q × List Q × List Q))
+    (hne : ∀ r ∈ rows, samples r.1 r.2.1 r.2.2 ≠ [])
+    (hlab : ∀ r ∈ rows, ∀ x ∈ samples r.1 r.2.1 r.2.2, x.t = 0 ∨ x.t = 1) :
+    binaryAurocTasks rows = .ok (rows.map fun r => auroc (samples r.1 r.2.1 r.2.2)) := by
+  unfold binaryAurocTasks
+  apply mapM_ok
+  intro r hr
+  exact auroc_model_eq_spec _ _ _ (hne r hr) (hlab r hr)
+
+example : binaryAurocTasks [([1/2, 1/2], [1, 0], [1, 1]), ([1/4, 3/4], [0, 1], [1, 2])] = .ok [1/2, 1] := by
+  rw [auroc_tasks_model_eq_spec _ (by decide +kernel) (by decide +kernel)]; exact congrArg _ (by decide +kernel)
+
+/-! ## (b) permutation invariance; the order in which the sort leaves tied samples is irrelevant -/
+
+/-- the definition does not depend on the order of the samples. -/
+theorem aurocSpec_perm {l₁ l₂ : List Sample} (h : l₁.Perm l₂) : auroc l₁ = auroc l₂ := by
+  have hp := h.filter isPos
+  have hn := h.filter isNeg
+  have e1 : wPos l₁ = wPos l₂ := sum_map_perm hp _
+  have e2 : wNeg l₁ = wNeg l₂ := sum_map_perm hn _
+  have e3 : aurocNum l₁ = aurocNum l₂ := by
+    unfold aurocNum
+    rw [sum_map_perm hp]
+    apply sum_map_congr
+    intro i _
+    exact sum_map_perm hn _
+  unfold auroc
+  rw [e1, e2, e3]
+
+example : auroc [⟨1/2, 1, 1⟩, ⟨1/2, 0, 2⟩, ⟨1/4, 1, 1⟩] = auroc [⟨1/4, 1, 1⟩, ⟨1/2, 0, 2⟩, ⟨1/2, 1, 1⟩] :=
+  aurocSpec_perm (by decide +kernel)
+
+/-- **any** arrangement of the samples in non-increasing score order — whatever
+    `torch.sort` does with ties — gives the definition's value: the result does
+    not depend on how ties are ordered by the sort. -/
+theorem auroc_any_sort (xs ts ws : List Q) (srt : List Pt)
+    (hperm : srt.Perm (binPts xs ts ws))
+    (hsorted : srt.Pairwise fun x y => y.s ≤ x.s)
+    (hne : samples xs ts ws ≠ [])
+    (hlab : ∀ x ∈ samples xs ts ws, x.t = 0 ∨ x.t = 1) :
+    aurocSorted srt = .ok (auroc (samples xs ts ws)) := by
+  rw [binPts_eq] at hperm
+  rw [aurocSorted_of_perm _ srt hperm hsorted (by simpa using hne) (toPt_ab _ hlab),
+    sum_a_eq_wPos _ hlab, sum_b_eq_wNeg _ hlab, ptNum_eq_aurocNum _ hlab]
+  rfl
+
+/-- two different arrangements of the tied pair (positive first / negative first). -/
+example : aurocSorted [⟨1/2, 1, 0⟩, ⟨1/2, 0, 1⟩, ⟨1/4, 1, 0⟩] = .ok (1/4)
+    ∧ aurocSorted [⟨1/2, 0, 1⟩, ⟨1/2, 1, 0⟩, ⟨1/4, 1, 0⟩] = .ok (1/4) := by
+  constructor
+  · rw [auroc_any_sort [1/2, 1/2, 1/4] [1, 0, 1] [1, 1, 1] _ (by decide +kernel) (by decide +kernel) (by decide +kernel) (by decide +kernel)]
+    exact congrArg _ (by decide +kernel)
+  · rw [auroc_any_sort [1/2, 1/2, 1/4] [1, 0, 1] [1, 1, 1] _ (by decide +kernel) (by decide +kernel) (by decide +kernel) (by decide +kernel)]
+    exact congrArg _ (by decide +kernel)
+
+/-- the model's own sort is such an arrangement (so `binaryAuroc` of a permuted
+    input is the same value). -/
+theorem auroc_model_perm (xs ts ws xs' ts' ws' : List Q)
+    (hp : (samples xs ts ws).Perm (samples xs' ts' ws'))
+    (hne : samples xs ts ws ≠ [])
+    (hlab : ∀ x ∈ samples xs ts ws, x.t = 0 ∨ x.t = 1) :
+    binaryAuroc xs ts ws = binaryAuroc xs' ts' ws' := by
+  have hne' : samples xs' ts' ws' ≠ [] := by
+    intro e; rw [e] at hp; exact hne (List.Perm.eq_nil hp)
+  rw [auroc_model_eq_spec _ _ _ hne hlab,
+    auroc_model_eq_spec _ _ _ hne' (fun x hx => hlab x (hp.mem_iff.mpr hx)), aurocSpec_perm hp]
+
+example : binaryAuroc [1/2, 1/4, 1/2] [1, 0, 0] [1, 2, 1] = binaryAuroc [1/4, 1/2, 1/2] [0, 0, 1] [2, 1, 1] :=
+  auroc_model_perm _ _ _ _ _ _ (by decide +kernel) (by decide +kernel) (by decide +kernel)
+
+/-! ## (e) degenerate conventions of AUROC -/
+
+/-- a class without weight (in particular: absent) ⇒ `0.5`. -/
+theorem auroc_degenerate (xs ts ws : List Q)
+    (hne : samples xs ts ws ≠ [])
+    (hlab : ∀ x ∈ samples xs ts ws, x.t = 0 ∨ x.t = 1)
+    (hdeg : wPos (samples xs ts ws) = 0 ∨ wNeg (samples xs ts ws) = 0) :
+    binaryAuroc xs ts ws = .ok (1 / 2) := by
+  rw [auroc_model_eq_spec _ _ _ hne hlab]
+  unfold auroc
+  have : wPos (samples xs ts ws) * wNeg (samples xs ts ws) = 0 := by
+    rcases hdeg with h | h <;> rw [h] <;> grind
+  simp [this]
+
+/-- all labels negative (or all positive) ⇒ the class is absent ⇒ `0.5`. -/
+theorem auroc_single_class (xs ts ws : List Q) (c : Q) (hc : c = 0 ∨ c = 1)
+    (hne : samples xs ts ws ≠ [])
+    (hall : ∀ x ∈ samples xs ts ws, x.t = c) :
+    binaryAuroc xs ts ws = .ok (1 / 2) := by
+  have hlab : ∀ x ∈ samples xs ts ws, x.t = 0 ∨ x.t = 1 := by
+    intro x hx; rw [hall x hx]; exact hc
+  apply auroc_degenerate _ _ _ hne hlab
+  rcases hc with rfl | rfl
+  · left
+    unfold wPos
+    have : (samples xs ts ws).filter isPos = [] := by
+      apply List.filter_eq_nil_iff.mpr
+      intro x hx
+      simp [isPos, hall x hx]
+    rw [this]; rfl
+  · right
+    unfold wNeg
+    have : (samples xs ts ws).filter isNeg = [] := by
+      apply List.filter_eq_nil_iff.mpr
+      intro x hx
+      simp [isNeg, hall x hx]
+    rw [this]; rfl
+
+example : binaryAuroc [1/2, 1/4, 1/2] [0, 0, 0] [1, 2, 1] = .ok (1 / 2) :=
+  auroc_single_class _ _ _ 0 (Or.inl rfl) (by decide +kernel) (by decide +kernel)
+example : binaryAuroc [1/2, 1/4, 1/2] [1, 1, 1] [1, 2, 1] = .ok (1 / 2) :=
+  auroc_single_class _ _ _ 1 (Or.inr rfl) (by decide +kernel) (by decide +kernel)
+
+/-- no sample at all: the real code fails indexing `cum_tp[-1]` (TorchScript `RuntimeError`). -/
+theorem auroc_empty (ts ws : List Q) : binaryAuroc [] ts ws = .error .runtime := by
+  unfold binaryAuroc binPts aurocCore sortDesc
+  simp [aurocSorted_nil]
+
+/-! ## (d) multiclass AUROC = one-vs-rest binary AUROC per class, then the average -/
+
+/-- class `c` of `_multiclass_auroc_compute` is the binary definition on the
+    one-vs-rest samples (unit weights, label 1 iff the target is `c`). -/
+theorem multiclass_auroc_class_eq (c : Nat) (col labs : List Q) (hne : col.zip labs ≠ []) :
+    aurocCore (ovrPts c col labs) = .ok (auroc (ovrSamples c col labs)) := by
+  have hb : Binary (ovrSamples c col labs) := ovrSamples_binary c col labs
+  rw [ovrPts_eq, aurocCore_eq _ (by simpa [ovrSamples] using hne) (toPt_ab _ hb),
+    sum_a_eq_wPos _ hb, sum_b_eq_wNeg _ hb, ptNum_eq_aurocNum _ hb]
+  rfl
+
+/-- `average=None`: the vector of per-class one-vs-rest AUROCs. -/
+theorem multiclass_auroc_none_eq (cols : List (List Q)) (labs : List Q)
+    (hne : ∀ col ∈ cols, col.zip labs ≠ []) :
+    multiclassAuroc cols labs .none
+      = .ok ((cols.zipIdx.map fun cc => auroc (ovrSamples cc.2 cc.1 labs)).map XQ.val) := by
+  unfold multiclassAuroc
+  rw [mapM_ok (g := fun cc => auroc (ovrSamples cc.2 cc.1 labs))]
+  · rfl
+  · intro cc hcc
+    exact multiclass_auroc_class_eq _ _ _ (hne cc.1 (mem_zipIdx_fst hcc))
+
+/-- `average="macro"`: their unweighted mean. -/
+theorem multiclass_auroc_macro_eq (cols : List (List Q)) (labs : List Q)
+    (hne : ∀ col ∈ cols, col.zip labs ≠ []) :
+    multiclassAuroc cols labs .macro
+      = .ok [mean (cols.zipIdx.map fun cc => auroc (ovrSamples cc.2 cc.1 labs))] := by
+  unfold multiclassAuroc
+  rw [mapM_ok (g := fun cc => auroc (ovrSamples cc.2 cc.1 labs))]
+  · rfl
+  · intro cc hcc
+    exact multiclass_auroc_class_eq _ _ _ (hne cc.1 (mem_zipIdx_fst hcc))
+
+example : multiclassAuroc [[1/2, 1/2, 1], [1/2, 1/4, 0]] [0, 1, 0] .none = .ok [.val (3/4), .val (1/2)] := by
+  rw [multiclass_auroc_none_eq _ _ (by decide +kernel)]; exact congrArg _ (by decide +kernel)
+example : multiclassAuroc [[1/2, 1/2, 1], [1/2, 1/4, 0]] [0, 1, 0] .macro = .ok [.val (5/8)] := by
+  rw [multiclass_auroc_macro_eq _ _ (by decide +kernel)]; exact congrArg _ (by decide +kernel)
+
 end TE.C05
